@@ -8,10 +8,10 @@ from typing import Any
 
 import snowflake.connector.converter
 import snowflake.connector.errors
-import sqlglot
 from duckdb import DuckDBPyConnection
 from snowflake.connector.cursor import DictCursor, SnowflakeCursor
-from sqlglot import exp
+from sqlglot.dialects.dialect import Dialect
+from sqlglot.tokens import TokenType
 from typing_extensions import Self
 
 import fakesnow.info_schema as info_schema
@@ -137,11 +137,18 @@ class FakeSnowflakeConnection:
         cursor_class: type[SnowflakeCursor] = SnowflakeCursor,
         **kwargs: dict[str, Any],
     ) -> Iterable[FakeSnowflakeCursor]:
-        cursors = [
-            self.cursor(cursor_class).execute(e.sql(dialect="snowflake"))
-            for e in sqlglot.parse(sql_text, read="snowflake")
-            if e and not isinstance(e, exp.Semicolon)  # ignore comments
-        ]
+        # split the text into statements with the tokenizer and execute each statement's own text, one by one, so
+        # that a statement behaves as it does when given to cursor.execute (nop_regexes and parse errors
+        # included), and the statements before a failing one have been run
+        cursors = []
+        statement = []
+        for token in [*Dialect.get_or_raise("snowflake").tokenize(sql_text), None]:
+            if token and token.token_type != TokenType.SEMICOLON:
+                statement.append(token)
+            elif statement:  # comments aren't tokens, so empty statements and comments are ignored
+                command = sql_text[statement[0].start : statement[-1].end + 1]
+                cursors.append(self.cursor(cursor_class).execute(command))
+                statement = []
         return cursors if return_cursors else []
 
     def is_closed(self) -> bool:
